@@ -8,6 +8,8 @@ Require Import UPV.Proofs.Eval_lemmas UPV.Proofs.Sem_proofs UPV.Proofs.Step_proo
 Require Import UPV.Compilers.Variants UPV.Proofs.Variants_proofs.
 Require Import UPV.Compilers.LayerA_Defs UPV.Compilers.LayerA_Variants.
 Require Import UPV.Proofs.LayerA_base UPV.Proofs.LayerA_Variants_proofs.
+Require Import UPV.Compilers.LayerA_Quant UPV.Planning.Ground UPV.Compilers.LayerA_Ground UPV.Compilers.LayerA_Neg UPV.Compilers.LayerA_Uinr UPV.Compilers.LayerA_Utfr.
+Require Import UPV.Proofs.LayerA_Ground_proofs UPV.Proofs.LayerA_Neg_proofs UPV.Proofs.LayerA_Uinr_proofs UPV.Proofs.LayerA_Utfr_proofs.
 Require Import UPV.Compilers.LayerA_Pipe UPV.Proofs.LayerA_Pipe_proofs UPV.Compilers.LayerA_DcrGoal.
 Local Open Scope nat_scope.
 
@@ -559,3 +561,307 @@ Section DCRGProofs.
       cbn [app]. rewrite app_nil_r. exact R4.
   Qed.
 End DCRGProofs.
+
+(* ================================================================== 4. further stages and pipelines (fourth round) *)
+(* ---- CompilersPipeline([Grounder(), NegativeConditionsRemover()]) — compcheck "pipeline:grounder+negative-conditions" *)
+Section GroundNcr.
+  Variable smp : expr -> expr.
+  Variable tuples : N -> list (list value).
+  Variable gnm : N -> nat -> N.
+  Variable P : problem.
+  Variable G1 : state -> Prop.
+  Hypothesis Hsmp : smp_exact_on P G1 smp.
+  Hypothesis Hu : unique_ids P.
+  Let P1 := ground_compile smp tuples gnm P.
+  Hypothesis Hu1 : unique_ids P1.
+  Hypothesis Gstep1 : forall s aid a args t, G1 s -> lookup_action P aid = Some a -> spec_step false P s a args = Some t -> G1 t.
+  Hypothesis Hinst : instances_ok smp tuples P.
+  Variable nmap : list (N * N).
+  Variables rw smp2 : expr -> expr.
+  Hypothesis H1 : nmap_ok nmap P1 = true.
+  Hypothesis H2 : problem_clean nmap P1 = true.
+  Hypothesis H3 : ncr_safe nmap P1 = true.
+  Hypothesis H4 : rw_ok nmap rw P1.
+  Hypothesis H5 : smp_exact smp2.
+  Let P2 := neg_compile nmap rw smp2 P1.
+  Let l := gn_stages smp tuples gnm G1 nmap rw smp2 P.
+
+  Lemma gn_linked : linked l P2.
+  Proof. cbn. repeat split; auto. Qed.
+
+  Lemma gn_pback pi' : pback (pipeline_back l) pi' = gt_map_back (ground_table smp tuples gnm P) pi'.
+  Proof.
+    rewrite (pipeline_pback l P2). unfold l, gn_stages. cbn [fold_right ground_stage ncr_stage st_back].
+    rewrite pback_Some, ground_pback. reflexivity.
+  Qed.
+
+  Lemma gn_okD pi' : Forall (st_okD (compose_all l P2)) pi'.
+  Proof. apply Forall_forall. intros x _. cbn. repeat split; auto. Qed.
+
+  Lemma gn_rel s0 s0' : G1 s0 -> neg_rel nmap s0 s0' -> st_rel (compose_all l P2) s0 s0'.
+  Proof.
+    intros HG HR. exists s0. split; [split; [reflexivity | exact HG]|]. exists s0'. split; [exact HR | reflexivity].
+  Qed.
+
+  Theorem pipe_ground_ncr_sound s0 s0' pi' : G1 s0 -> neg_rel nmap s0 s0' ->
+    valid_plan false P2 s0' pi' = true -> valid_plan false P s0 (pback (pipeline_back l) pi') = true.
+  Proof.
+    intros HG HR Hv.
+    assert (Hs : Forall stage_sound l).
+    { constructor; [exact (ground_stage_sound smp tuples gnm P G1 Hsmp Hu Hu1 Gstep1 Hinst)|]. constructor; [|constructor].
+      exact (ncr_stage_sound nmap rw smp2 P1 H1 H2 H3 H4 H5). }
+    pose proof (pipeline_sound l P2 Hs gn_linked s0 s0' pi' (gn_rel s0 s0' HG HR) (gn_okD pi')) as H.
+    rewrite (pback_ext _ _ pi' (pipeline_back_spec l P2)) in H. apply H. exact Hv.
+  Qed.
+
+  Hypothesis Hconf1 : forall s i a args, G1 s -> In (i, a) (p_actions P) -> In args (tuples i) ->
+    add_effs_ok [] [] (g_effects smp (zip_params (a_params a) args) (a_effs a)) = false ->
+    spec_step false P s a args = None.
+
+  Theorem pipe_ground_ncr_complete s0 s0' pi : G1 s0 -> neg_rel nmap s0 s0' -> plan_in_tuples tuples pi ->
+    valid_plan false P s0 pi = true ->
+    exists pi', length pi' <= length pi /\ valid_plan false P2 s0' pi' = true /\
+                sub_noop_eq P s0 pi (pback (pipeline_back l) pi').
+  Proof.
+    intros HG HR Hin Hv.
+    assert (Hc : certified (compose_all l P2)).
+    { apply pipeline_certified; [|exact gn_linked].
+      constructor; [exact (ground_stage_certified smp tuples gnm P G1 Hsmp Hu Hu1 Gstep1 Hinst Hconf1)|].
+      constructor; [|constructor]. exact (ncr_stage_certified nmap rw smp2 P1 H1 H2 H3 H4 H5). }
+    assert (Hok : Forall (st_okS (compose_all l P2)) pi).
+    { apply Forall_forall. intros [i args] Hx. exact (Hin i args Hx). }
+    destruct (cs_complete _ Hc s0 s0' pi (gn_rel s0 s0' HG HR) Hok Hv) as (pi' & L & V & _ & S).
+    exists pi'. split; [cbn in L; plia|]. split; [exact V|].
+    rewrite (pback_ext _ _ pi' (pipeline_back_spec l P2)) in S. exact S.
+  Qed.
+End GroundNcr.
+Lemma run_inv P pi : forall s t, run P (spec_step false P) s pi = Some t -> invariants_ok false P s = true ->
+  invariants_ok false P t = true.
+Proof.
+  induction pi as [|[aid args] pi IH]; intros s t; cbn [run]; [intros E; inversion E; subst; auto|].
+  destruct (lookup_action P aid) as [a|]; [|discriminate].
+  destruct (spec_step false P s a args) as [m|] eqn:ES; [|discriminate]. intros ER _.
+  apply (IH m t ER). eapply spec_step_inv; exact ES.
+Qed.
+
+Section DcrgStage.
+  Variable cdnf : expr -> list expr.
+  Variable pre_dnf : action -> list (list expr).
+  Variable nm : N -> nat -> N.
+  Variable fk : N.
+  Variable gnm : nat -> N.
+  Variable gds : list (list expr).
+  Variable P : problem.
+  Let P' := dcrg_compile cdnf pre_dnf nm fk gnm gds P.
+  Let st := dcrg_stage cdnf pre_dnf nm fk gnm gds.
+  Hypothesis Hu : unique_ids P.
+  Hypothesis Hu' : unique_ids P'.
+  Hypothesis Hfresh : dcrg_fresh cdnf pre_dnf nm fk gds P = true.
+  Hypothesis Hnofk : orig_no_fk fk P = true.
+  Variable G : state -> Prop.
+  Hypothesis Gstep : forall s aid a args t, G s -> lookup_action P aid = Some a -> spec_step false P s a args = Some t -> G t.
+  Hypothesis Heffs : forall s args i a, G s -> In (i, a) (p_actions P) ->
+    Forall (dnf_effect_ok cdnf P s a args) (a_effs a).
+  Hypothesis Hpre : forall s args i a, G s -> In (i, a) (p_actions P) ->
+    existsb (all_hold false (mk_interp P s (zip_params (a_params a) args))) (pre_dnf a) =
+    all_hold false (mk_interp P s (zip_params (a_params a) args)) (a_pre a).
+  Hypothesis Hgoals : forall s, G s ->
+    existsb (all_hold false (mk_interp P s [])) gds = all_hold false (mk_interp P s []) (p_goals P).
+
+  Lemma dcrg_sim pi' s s' t' : dcrg_rel fk G P s s' ->
+    run P' (spec_step false P') s' pi' = Some t' ->
+    exists t, run P (spec_step false P) s (pback (dcrg_back cdnf pre_dnf nm fk gnm gds P) pi') = Some t /\
+              dcrg_rel fk G P t t'.
+  Proof.
+    intros (Ha & HG & Hi & Hg) ER.
+    destruct (dcrg_run_sound cdnf pre_dnf nm fk gnm gds P Hu Hu' Hfresh G Gstep Heffs Hpre Hgoals pi' s s' t' HG Ha Hg ER)
+      as (t & Et & HGt & Hat & Hgt).
+    exists t. split; [exact Et|]. repeat split; try assumption. eapply run_inv; eassumption.
+  Qed.
+
+  Lemma dcrg_stage_sound : stage_sound (st G P).
+  Proof.
+    intros s s' pi' HR _. cbn [st dcrg_stage st_back st_src st_dst st_rel] in *. unfold valid_plan.
+    destruct (run (dcrg_compile cdnf pre_dnf nm fk gnm gds P) (spec_step false (dcrg_compile cdnf pre_dnf nm fk gnm gds P)) s' pi')
+      as [t'|] eqn:ER; [|discriminate]. intros Hgl.
+    destruct (dcrg_sim pi' s s' t' HR ER) as (t & -> & _ & _ & _ & Hg). apply Hg.
+    apply (compiled_goal cdnf pre_dnf nm fk gnm gds P). exact Hgl.
+  Qed.
+
+  Lemma dcrg_stage_noop : stage_noop (st G P).
+  Proof.
+    apply sim_noop.
+    - intros s s' x' t' HR _ ER. cbn [st dcrg_stage st_back st_src st_dst st_rel] in *.
+      destruct (dcrg_sim [x'] s s' t' HR ER) as (t & Et & HRt).
+      exists t. split; [|exact HRt]. rewrite pback_cons in Et. cbn [pback flat_map] in Et. rewrite app_nil_r in Et. exact Et.
+    - intros s s' [aid args] t t' (Ha & _) (Hb & _) Hs' ER g x. cbn [st dcrg_stage st_back st_src st_dst st_rel] in *.
+      destruct (N.eq_dec g fk) as [->|Hne].
+      + unfold ostep in ER. destruct (dcrg_back cdnf pre_dnf nm fk gnm gds P (aid, args)) as [[i ar]|].
+        * rewrite run_single in ER. destruct (lookup_action P i) as [a|] eqn:EL; [|discriminate].
+          symmetry. apply (step_untouched P s a ar t fk ER).
+          intros e He. apply lookupN_In in EL. unfold orig_no_fk in Hnofk. rewrite forallb_forall in Hnofk.
+          specialize (Hnofk _ EL). cbn [snd] in Hnofk. rewrite forallb_forall in Hnofk. specialize (Hnofk e He).
+          apply negb_true_iff, N.eqb_neq in Hnofk. exact Hnofk.
+        * cbn [run] in ER. inversion ER; subst. reflexivity.
+      + rewrite <- (Ha g x Hne), <- (Hb g x Hne). apply Hs'.
+  Qed.
+
+  Hypothesis Hconf : forall s args i a d, G s -> In (i, a) (p_actions P) -> In d (pre_dnf a) ->
+    add_effs_ok [] [] (a_effs (dnf_variant cdnf a d)) = false ->
+    all_hold false (mk_interp P s (zip_params (a_params a) args)) d = true -> applicable P s a args = false.
+
+  Lemma dcrg_stage_complete : stage_complete (st G P).
+  Proof.
+    intros s s' pi (Ha & HG & Hi & _) _ Hv. cbn [st dcrg_stage st_back st_src st_dst st_aux st_okD] in *.
+    destruct (dcrg_complete cdnf pre_dnf nm fk gnm gds P Hu' Hfresh G Gstep Heffs Hpre Hgoals Hconf s s' pi HG Ha Hi Hv)
+      as (pi' & V & L & S).
+    exists pi'. split; [exact L|]. split; [exact V|]. split; [apply Forall_forall; intros; exact I | exact S].
+  Qed.
+
+  Lemma dcrg_stage_certified : certified (st G P).
+  Proof. constructor; [exact dcrg_stage_sound | exact dcrg_stage_complete | exact dcrg_stage_noop]. Qed.
+End DcrgStage.
+
+(* the compiled initial state (fk = false) is related to the original one *)
+Lemma dcrg_rel_init fk (G : state -> Prop) P s : G s -> invariants_ok false P s = true -> dcrg_rel fk G P s (with_fk fk s).
+Proof.
+  intros HG Hi. repeat split; try assumption.
+  - intros f x Hf. unfold with_fk. apply N.eqb_neq in Hf. rewrite Hf. reflexivity.
+  - unfold with_fk. rewrite N.eqb_refl. discriminate.
+Qed.
+Section UinrStage.
+  Variable umap : list (N * N).
+  Variable P : problem.
+  Hypothesis Hok : uinr_ok umap P = true.
+  Hypothesis Hnc : orig_no_comp umap P = true.
+
+  Lemma uinr_stage_sound : stage_sound (uinr_stage umap P).
+  Proof.
+    intros s s' pi' HR _ Hv. cbn [uinr_stage st_back st_src st_dst st_rel] in *. rewrite pback_Some.
+    rewrite <- (uinr_valid_plan umap P Hok s s' pi' HR). exact Hv.
+  Qed.
+
+  Lemma uinr_stage_complete : stage_complete (uinr_stage umap P).
+  Proof.
+    intros s s' pi HR _ Hv. cbn [uinr_stage st_back st_src st_dst st_rel st_aux st_okD] in *. exists pi.
+    split; [plia|]. split; [rewrite (uinr_valid_plan umap P Hok s s' pi HR); exact Hv|].
+    split; [apply Forall_forall; intros; exact I|]. rewrite pback_Some. apply sne_valid_refl. exact Hv.
+  Qed.
+
+  Lemma uinr_stage_noop : stage_noop (uinr_stage umap P).
+  Proof.
+    apply sim_noop.
+    - intros s s' x' t' HR _ ER. cbn [uinr_stage st_back st_src st_dst st_rel] in *.
+      pose proof (uinr_run umap P Hok [x'] s s' HR) as Hx. unfold orel in Hx. rewrite ER in Hx.
+      unfold ostep. destruct (run P (spec_step false P) s [x']) as [t|]; [|destruct Hx].
+      exists t. split; [reflexivity | exact Hx].
+    - intros s s' [aid args] t t' [Ra Rb] [Ta Tb] Hs' ER g x. cbn [uinr_stage st_back st_src st_dst st_rel] in *.
+      unfold ostep in ER. rewrite run_single in ER.
+      destruct (lookup_action P aid) as [a|] eqn:EL; [|discriminate].
+      destruct (is_ucomp umap g) eqn:Eg.
+      + symmetry. apply (step_untouched P s a args t g ER).
+        intros e He Heq. subst g. apply lookupN_In in EL. unfold orig_no_comp in Hnc. rewrite forallb_forall in Hnc.
+        specialize (Hnc _ EL). cbn [snd] in Hnc. rewrite forallb_forall in Hnc. specialize (Hnc e He).
+        rewrite Eg in Hnc. discriminate.
+      + destruct (ucomp umap g) as [d|] eqn:Ec.
+        * specialize (Rb g d x Ec). specialize (Tb g d x Ec).
+          destruct (s g x) as [v|], (t g x) as [w|].
+          -- destruct Rb as [R1 _], Tb as [T1 _]. rewrite <- R1, <- T1. apply Hs'.
+          -- destruct Rb as [_ R2]. rewrite (Hs' d x), Tb in R2. discriminate.
+          -- destruct Tb as [_ T2]. rewrite <- (Hs' d x), Rb in T2. discriminate.
+          -- reflexivity.
+        * rewrite <- (Ra g x Ec Eg), <- (Ta g x Ec Eg). apply Hs'.
+  Qed.
+
+  Lemma uinr_stage_certified : certified (uinr_stage umap P).
+  Proof. constructor; [exact uinr_stage_sound | exact uinr_stage_complete | exact uinr_stage_noop]. Qed.
+End UinrStage.
+Section UtfrStage.
+  Variables tr smp : expr -> expr.
+  Variable P : problem.
+  Variable G : state -> Prop.
+  Variable Q : pstep -> Prop.
+  Hypothesis H1 : smp_exact smp.
+  Hypothesis H2 : utfr_wf tr smp P = true.
+  Hypothesis H3 : tr_ok tr P.
+  Hypothesis H4 : effects_defined P G.
+  Hypothesis H5 : one_value P G.
+  Hypothesis H6 : closed P G.
+  Hypothesis Hu : unique_ids P.
+
+  Lemma utfr_run_G pi : forall s t, G s -> run P (spec_step false P) s pi = Some t -> G t.
+  Proof.
+    induction pi as [|[aid args] pi IH]; intros s t HG; cbn [run]; [intros E; inversion E; subst; exact HG|].
+    destruct (lookup_action P aid) as [a|] eqn:EL; [|discriminate].
+    destruct (spec_step false P s a args) as [m|] eqn:ES; [|discriminate]. apply IH. eapply H6; eassumption.
+  Qed.
+
+  Lemma utfr_stage_sound : stage_sound (utfr_stage tr smp G Q P).
+  Proof.
+    intros s s' pi' [HR HG] _ Hv. cbn [utfr_stage st_back st_src st_dst st_rel] in *. rewrite pback_Some.
+    rewrite <- (u_valid_plan tr smp P G H1 H2 H3 H4 H5 H6 Hu s s' pi' HG HR). exact Hv.
+  Qed.
+
+  Lemma utfr_stage_complete : stage_complete (utfr_stage tr smp G Q P).
+  Proof.
+    intros s s' pi [HR HG] HQ Hv. cbn [utfr_stage st_back st_src st_dst st_rel st_aux st_okD st_okS] in *. exists pi.
+    split; [plia|]. split; [rewrite (u_valid_plan tr smp P G H1 H2 H3 H4 H5 H6 Hu s s' pi HG HR); exact Hv|].
+    split; [exact HQ|]. rewrite pback_Some. apply sne_valid_refl. exact Hv.
+  Qed.
+
+  (* the Boolean encoding determines the object-valued state *)
+  Lemma utfr_rel_unique s s' t t' : utfr_rel P s s' -> utfr_rel P t t' -> state_eq s' t' -> state_eq s t.
+  Proof.
+    intros [Ra Rb] [Ta Tb] Hs' g x. destruct (otype P g) as [ty|] eqn:Eo.
+    - specialize (Rb g ty x Eo). specialize (Tb g ty x Eo).
+      destruct (s g x) as [[b|q|c]|]; try contradiction; destruct (t g x) as [[b2|q2|c2]|]; try contradiction.
+      + destruct Rb as [Rin Rv], Tb as [Tin Tv]. pose proof (Rv c Rin) as E1. pose proof (Tv c Rin) as E2.
+        rewrite (Hs' g (x ++ [VObj c])), E2 in E1. inversion E1 as [E]. rewrite N.eqb_refl in E.
+        apply N.eqb_eq in E. subst. reflexivity.
+      + destruct Rb as [Rin Rv]. pose proof (Rv c Rin) as E1. rewrite (Hs' g (x ++ [VObj c])), (Tb c Rin) in E1. discriminate.
+      + destruct Tb as [Tin Tv]. pose proof (Tv c2 Tin) as E1. rewrite <- (Hs' g (x ++ [VObj c2])), (Rb c2 Tin) in E1. discriminate.
+      + reflexivity.
+    - rewrite <- (Ra g x Eo), <- (Ta g x Eo). apply Hs'.
+  Qed.
+
+  Lemma utfr_stage_noop : stage_noop (utfr_stage tr smp G Q P).
+  Proof.
+    apply sim_noop.
+    - intros s s' x' t' [HR HG] _ ER. cbn [utfr_stage st_back st_src st_dst st_rel] in *.
+      pose proof (u_run tr smp P G H1 H2 H3 H4 H5 H6 Hu [x'] s s' HG HR) as Hx. rewrite ER in Hx.
+      unfold ostep. destruct (run P (spec_step false P) s [x']) as [t|] eqn:Et; [|destruct Hx].
+      exists t. split; [reflexivity|]. split; [exact Hx | eapply utfr_run_G; eassumption].
+    - intros s s' x' t t' [HR _] [HT _] Hs' _. cbn [utfr_stage st_rel] in *. eapply utfr_rel_unique; eassumption.
+  Qed.
+
+  Lemma utfr_stage_certified : certified (utfr_stage tr smp G Q P).
+  Proof. constructor; [exact utfr_stage_sound | exact utfr_stage_complete | exact utfr_stage_noop]. Qed.
+End UtfrStage.
+
+(* ---- CompilersPipeline([UsertypeFluentsRemover(), QuantifiersRemover(), DisjunctiveConditionsRemover()]) *)
+Section UQD.
+  Variables tr smp1 smp : expr -> expr.
+  Variables G0 G2 : state -> Prop.
+  Variable cdnf : expr -> list expr.
+  Variable pre_dnf : action -> list (list expr).
+  Variable nm : N -> nat -> N.
+  Variable fk : N.
+  Variable gnm : nat -> N.
+  Variable gds : list (list expr).
+  Variable P : problem.
+  Let l := uqd_stages tr smp1 G0 smp cdnf pre_dnf nm fk gnm gds G2 P.
+  Let P3 := uqd_dst tr smp1 smp cdnf pre_dnf nm fk gnm gds P.
+
+  (* the stages fit: problems chain, and what each stage guarantees of its compiled plan's steps is what the next asks *)
+  Lemma uqd_linked : linked l P3.
+  Proof. cbn. repeat split; auto. Qed.
+
+  Lemma uqd_aux : st_aux (compose_all l P3) = 1.
+  Proof. reflexivity. Qed.
+
+  Theorem pipe_uqd_sound : Forall stage_sound l -> stage_sound (compose_all l P3).
+  Proof. intros H. apply pipeline_sound; [exact H | exact uqd_linked]. Qed.
+
+  Theorem pipe_uqd_certified : Forall certified l -> certified (compose_all l P3).
+  Proof. intros H. apply pipeline_certified; [exact H | exact uqd_linked]. Qed.
+End UQD.
